@@ -10,6 +10,10 @@ import re
 
 from . import blocks as B
 from . import c02, driver, evm_ref as E, pool, report, families, spec_eval as SE
+from . import sm_search
+
+GATE_ONLY = set()  # option sets that only contribute the size-gating figure (quick tier: -size with rules off)
+GATE_MAX_LEN = 7  # size gating is decided by explicit-state search on blocks of at most this many instructions
 
 NAME = c02.NAME
 
@@ -40,6 +44,33 @@ def const_range_violation(specs):
     return None
 
 
+def peak_height(block):
+    """Input words needed and the highest stack the block itself reaches (bound of the size-gating search)."""
+    need, _ = E.need_delta(block)
+    h = peak = need
+    for op, _ in block:
+        a, r = E.ARITY[op]
+        h += r - a
+        peak = max(peak, h)
+    return peak
+
+
+def min_bytes(ctx, block, specs):
+    """Fewest bytes of any sequence realizing the specifications (E6, independent byte weights), searched within
+    bounds that depend on the block only (so that the rules-on and rules-off figures are comparable)."""
+    from .c07 import weights
+    push0 = "-push0" not in ctx.cfg
+    L, H = len(block) + 2, peak_height(block) + 1
+    total = states = 0
+    for key in sorted(specs):
+        r = sm_search.search(specs[key], L, H, weights(specs[key], "size", push0), node_cap=60000)
+        states += r["states"]
+        if not r["found"]:
+            return None, states, ("capped" if r["capped"] else "not-realizable-within-block-bounds")
+        total += r["cost"]
+    return total, states, None
+
+
 def work(ctx, block):
     try:
         specs, _ = driver.specs_for(ctx, block, name=NAME)
@@ -53,9 +84,19 @@ def work(ctx, block):
                 "what": bad}, "shape": ops_of(block),
                 "rules": sorted({r for s in specs.values() for r in s.get("rules", [])})}, "stats": None,
                 "raised": None}
-    r = c02.work(ctx, (block, False))
+    gate_ok = "-size" in ctx.cfg and len(block) <= GATE_MAX_LEN and len(specs) == 1
+    if tuple(ctx.cfg) in GATE_ONLY:
+        if not gate_ok:
+            return {"viol": None, "stats": None, "raised": None}
+        r = {"viol": None, "stats": None, "raised": None}
+    else:
+        r = c02.work(ctx, (block, False))
     if r["viol"]:
         r["viol"]["shape"] = ops_of(block)
+    if gate_ok:
+        mb, states, why = min_bytes(ctx, block, specs)
+        r["gate"] = {"min_bytes": mb, "states": states, "why": why,
+                     "rules": sorted({x for s in specs.values() for x in s.get("rules", [])})}
     return r
 
 
@@ -72,7 +113,8 @@ def signature(v):
 
 def cfg_list(tier):
     if tier == "quick":
-        return [("-greedy",), ("-size", "-greedy"), ("-no-simplification", "-greedy")]
+        return [("-greedy",), ("-size", "-greedy"), ("-no-simplification", "-greedy"),
+                ("-size", "-no-simplification", "-greedy")]
     out = []
     for crit in ((), ("-size",), ("-length",)):
         for r in ((), ("-no-simplification",)):
@@ -89,11 +131,17 @@ def main(tier, seed, only=None):
                        "reports at least one applied rule")
     universe = rule_universe()
     fired = {}
-    tot = {"specs": 0, "states": 0, "oog": 0, "raised": 0, "budget": 0, "with_rules": 0}
+    tot = {"specs": 0, "states": 0, "oog": 0, "raised": 0, "budget": 0, "with_rules": 0, "gate_states": 0}
+    gate = {}
+    # size gating is decided on the same (triaged) block set in both tiers
+    gate_blocks = {B.to_text(b) for b in list(families.rule_family(level=1)) + families.vocabulary_family()
+                   + families.cse_family() + families.sibling_family()}
     blocks = list(families.rule_family(level=1 if tier == "quick" else 2)) + families.vocabulary_family() + families.cse_family() + families.sibling_family()
     if only:
         blocks = [b for b in blocks if only in B.to_text(b)]
     cfgs = cfg_list(tier)
+    if tier == "quick":
+        GATE_ONLY.add(("-size", "-no-simplification", "-greedy"))
 
     def on_result(cfg, block, status, value):
         chk.add("evaluations")
@@ -119,9 +167,39 @@ def main(tier, seed, only=None):
                         fired[r] = B.to_text(block)
         if value["viol"]:
             chk.violation(signature(value["viol"]), value["viol"])
+        if value.get("gate") and B.to_text(block) in gate_blocks:
+            gate.setdefault(B.to_text(block), {})["off" if "-no-simplification" in cfg else "on"] = value["gate"]
+            tot["gate_states"] += value["gate"]["states"]
 
     tasks = [(cfg, ch) for cfg in cfgs for ch in pool.chunks(blocks, max(300, len(blocks) // 16 + 1))]
     pool.run_tasks(tasks, work, setup=driver.setup_ctx, unit_timeout=20, on_result=on_result)
+    # size gating: with -size, rules must not make the cheapest realization of the specification larger
+    g = {"pairs": 0, "with_rules": 0, "smaller": 0, "equal": 0, "undecided": 0}
+    from .c01 import norm_rule as _nr
+    for text, d in sorted(gate.items()):
+        if "on" not in d or "off" not in d:
+            continue
+        on, off = d["on"], d["off"]
+        if on["min_bytes"] is None or off["min_bytes"] is None:
+            g["undecided"] += 1
+            continue
+        g["pairs"] += 1
+        if on["rules"]:
+            g["with_rules"] += 1
+        if on["min_bytes"] < off["min_bytes"]:
+            g["smaller"] += 1
+        elif on["min_bytes"] == off["min_bytes"]:
+            g["equal"] += 1
+        else:
+            rules = sorted({_nr(r) for r in on["rules"]})
+            chk.violation("size-gating;rules=[%s]" % ",".join(rules),
+                          {"block": text, "config": ["-size", "-greedy"], "diff": {"kind": "size-gating",
+                           "min_bytes_rules_on": on["min_bytes"], "min_bytes_rules_off": off["min_bytes"]},
+                           "rules": on["rules"], "shape": ""})
+    chk.cov["size_gating"] = dict(g, search_states=tot["gate_states"], rule=(
+        "blocks of <= %d instructions yielding one specification: fewest bytes of any realizing sequence (explicit-"
+        "state uniform-cost search, independent byte weights, bounds len(block)+2 / peak+1) with rules on must not "
+        "exceed the figure with rules off under -size" % GATE_MAX_LEN))
     unreached = [u for u in universe if u not in fired and not any(u in f or f in u for f in fired)]
     for name, blk in sorted(fired.items())[:12]:
         chk.sample({"rule": name, "first_block": blk})
@@ -139,6 +217,20 @@ def replay(path):
     from .c01 import parse_text
     block = parse_text(w["block"])
     res = {}
+    if w["diff"]["kind"] == "size-gating":
+        got = {}
+
+        def on_gate(cfg, unit, status, value):
+            got["off" if "-no-simplification" in cfg else "on"] = value["gate"]["min_bytes"] if status == "ok" else None
+
+        pool.run_tasks([(("-size", "-greedy"), [block]), (("-size", "-no-simplification", "-greedy"), [block])], work,
+                       setup=driver.setup_ctx, unit_timeout=60, on_result=on_gate)
+        print("min bytes with rules on / off:", got.get("on"), got.get("off"))
+        if got.get("on") is not None and got.get("off") is not None and got["on"] > got["off"]:
+            print("VIOLATION property=C03 replay=%s" % path)
+            return 1
+        print("no violation on replay")
+        return 0
 
     def on_result(cfg, unit, status, value):
         res["status"], res["value"] = status, value
